@@ -22,6 +22,7 @@ RULE = ("api leg: base cooler of resolution 1 (8+4 bp genome) x ALL 2^7 subsets 
         "u bases} once each, multires recognised, each base level reads identically to its source (bins incl. weights, pixels, "
         "indexes, attributes), each derived level == ref_coarsen(base, r/base) for a supplied base dividing r, V on every level. "
         "Non-trivial: >=1 derived level. Distinct by construction.")
+EXTRA_LEGS = 'rerun: a second zoomify into an output path that already holds a multi-resolution file (other data, other targets, other base, source renamed / given a bin column / edited in place in between) must leave exactly what the last call asked for.'
 BOUNDS = {"quick": "all subsets at chunksize 1e6, chunksize {1,3} on every 8th subset; schedule deviation bound 1; one injected I/O error at every h5py call of 3 zoomify runs",
           "thorough": "all subsets x chunksize {1,3,1e6}; 3 base contents; base 3 x all subsets of {3,6,9,12,4}; schedule deviation bound 2; abort leg as in the quick tier"}
 ASSUMPTIONS = ["pixel value columns not requested via `columns` are not expected in the output (documented default: count only)",
